@@ -182,42 +182,60 @@ def f06a_cancellation(law, L, root, kp, rtol, tol):
     return EPS * abs(L) / (u * u) > 0.25 * (tol + rtol * abs(root))
 
 
+def ref_F_continued(s, L, m, kp, sec):
+    """Seeger-Beste residual continued analytically to s > L (the middle term is even in u)."""
+    e_star = ref_strain(L / kp, m, sec)
+    u = abs((math.pi / 2.0) * (L / s - 1.0) / (kp - 1.0))
+    if u >= math.pi / 2.0 or math.cos(u) <= 0.0:
+        return -1.0
+    return ref_strain(s, m, sec) * s / ((_g(u) + (s / L) ** 2 - s / L) * L * kp * e_star) - 1.0
+
+
 def ref_mirror_root(L, m, kp, sec):
-    """Seeger-Beste residual continued analytically to s > L (the middle term is even in u): second root in
-    (L, L/(2-K_p)) or None.  For small loads it sits at about L(1 + 24/pi^2 (K_p-1)^2)."""
+    """Second root of the continued residual in (L, L/(2-K_p)) or None.  For small loads it sits at about
+    L(1 + 24/pi^2 (K_p-1)^2)."""
     if kp >= 2.0:
         return None
-    e_star = ref_strain(L / kp, m, sec)
-
-    def F(s):
-        u = abs((math.pi / 2.0) * (L / s - 1.0) / (kp - 1.0))
-        if u >= math.pi / 2.0 or math.cos(u) <= 0.0:
-            return -1.0
-        return ref_strain(s, m, sec) * s / ((_g(u) + (s / L) ** 2 - s / L) * L * kp * e_star) - 1.0
+    F = lambda s: ref_F_continued(s, L, m, kp, sec)
     lo, hi = L * (1.0 + 1e-12), L / (2.0 - kp)
     if not (F(lo) > 0 > F(hi)):
         return None
     return brentq(F, lo, hi, xtol=1e-300, rtol=4 * EPS, maxiter=400)
 
 
-def f06b_mirror_root(law, fname, L, root, kp, rtol, tol, m=None, sec=False):
-    """F06_b: Seeger-Beste residual has a second (mirror) root above |L| (u -> -u).  The vectorised secant
-    iteration starts from x0 = |L|(1-(1-1/K_p)/1000) and x0(1+dx)+dx; when K_p is so close to 1 (below ~1.012) that the
-    second start point lies near or beyond |L| (where the coded residual is singular: u -> 0) the iteration may settle on
-    the mirror root.  Class: second start point beyond the middle of [x0, |L|] and the mirror root is farther from the
-    true root than the requested tolerance."""
+SCALAR_SECANT_DX = 1e-4                # first secant step of scipy.optimize.newton for scalar input
+
+
+def f06b_mirror_root(law, fname, L, root, kp, rtol, tol, m=None, sec=False, scalar=False):
+    """F06_b: for K_p close to 1 the secant iteration of SeegerBeste.stress / stress_secondary_branch is not reliable.
+    The admissible interval [|L|/K_p, |L|] is narrow, the residual has a second (mirror) root just above |L| (u -> -u)
+    and a flat hump in between; the iteration starts from x0 = |L|(1-(1-1/K_p)/1000) and p1 = x0(1+dx)+dx (dx = eps^0.33
+    for vectorised, 1e-4 for scalar calls), i.e. with a start step that is not small against that structure, and settles
+    on the mirror root or stops early.  Class:
+    * vectorised call (K_p below ~1.012): p1 beyond the middle of [x0, |L|];
+    * scalar call (reachable once F03 is repaired; K_p below ~1.01, or K_p ~ 1.11 where p1 hits the singular point |L|):
+      start step larger than 1 % of the interval width, or p1 within 1e-3 (|L|-x0) of |L|;
+    and the interval is wider than the requested tolerance or the mirror root is farther from the true root than it."""
     if law != "SB" or fname not in ("stress", "stress_secondary_branch") or L == 0:
         return False
     a = abs(L)
     x0 = a * (1.0 - (1.0 - 1.0 / kp) / 1000.0)
-    p1 = x0 * (1.0 + ARRAY_SECANT_DX) + ARRAY_SECANT_DX
-    if p1 < x0 + 0.5 * (a - x0):
-        # second start point stays in the lower half of [x0, |L|]: u(p1) is bounded away from the u -> 0 singularity
+    dx = SCALAR_SECANT_DX if scalar else ARRAY_SECANT_DX
+    p1 = x0 * (1.0 + dx) + dx
+    width = a * (1.0 - 1.0 / kp)
+    if not scalar:
+        if p1 < x0 + 0.5 * (a - x0):
+            # second start point stays in the lower half of [x0, |L|]: u(p1) is bounded away from the u -> 0 singularity
+            return False
+    elif not (p1 - x0 > 0.01 * width or abs(p1 - a) <= 1e-3 * (a - x0)):
         return False
+    B = tol + rtol * abs(root)
+    if width > B:
+        return True
     mirror = ref_mirror_root(a, m, kp, sec) if m is not None else None
     if mirror is None:
         mirror = a + (a - abs(root))
-    return mirror - abs(root) > tol + rtol * abs(root)
+    return mirror - abs(root) > B
 
 
 def f06b_load_start(law, fname, S, kp, rtol, tol):
@@ -500,7 +518,7 @@ def _known_gate(ctx, pred, fid):
     return cache[fid]
 
 
-def check_forward(case, ctx, law, values, got, fname, where="root"):
+def check_forward(case, ctx, law, values, got, fname, where="root", scalar=False):
     """Assert root / bounds / sign for the forward functions on every element. Returns list of (L, sigma*, B) or None
     per element (None = element routed to a known finding)."""
     m, kp = _mat(case), case["K_p"]
@@ -523,7 +541,7 @@ def check_forward(case, ctx, law, values, got, fname, where="root"):
         root = ref_stress(case["law"], abs(L), m, kp, sec)
         B = bound(root, rtol, tol)
         if _known_gate(ctx, f06a_cancellation(case["law"], L, root, kp, rtol, tol), "F06_a") or \
-                _known_gate(ctx, f06b_mirror_root(case["law"], fname, L, root, kp, rtol, tol, m, sec), "F06_b"):
+                _known_gate(ctx, f06b_mirror_root(case["law"], fname, L, root, kp, rtol, tol, m, sec, scalar), "F06_b"):
             info.append(None)
             continue
         info.append((L, math.copysign(root, L), B))
@@ -578,7 +596,7 @@ def root(case, ctx):
         ctx.tolerate("RuntimeError: solver failed to converge (%s %s)" % (case["law"], "default tol" if tol is None and rtol is None else "custom tol"))
         ctx.label("solver_raised")
         return
-    info = check_forward(case, ctx, law, values, got, fname)
+    info = check_forward(case, ctx, law, values, got, fname, scalar=kind not in ARRAY_KINDS)
     ctx.nontrivial(nt)
     # strain functions: Ramberg-Osgood of the returned stress (closed form)
     sec = case["branch"] == "secondary"
@@ -640,7 +658,7 @@ def odd(case, ctx):
             r = ref_load("SB", abs(v), m, kp, sec) if case["backward"] else ref_stress("SB", abs(v), m, kp, sec)
             L_, s_ = (r, abs(v)) if case["backward"] else (abs(v), r)
             if _known_gate(ctx, f06a_cancellation("SB", L_, s_, kp, rt, t), "F06_a") or \
-                    _known_gate(ctx, f06b_mirror_root("SB", fname, L_, s_, kp, rt, t, m, sec), "F06_b") or \
+                    _known_gate(ctx, f06b_mirror_root("SB", fname, L_, s_, kp, rt, t, m, sec, kind not in ARRAY_KINDS), "F06_b") or \
                     _known_gate(ctx, f06b_load_start("SB", fname, s_, kp, rt, t), "F06_b"):
                 gated = True
                 continue
@@ -701,7 +719,7 @@ def monotone(case, ctx):
     except SolverRaised:
         ctx.tolerate("RuntimeError: solver failed to converge")
         return
-    info = check_forward(case, ctx, law, values, got, fname, where="monotone")
+    info = check_forward(case, ctx, law, values, got, fname, where="monotone", scalar=(kind == "scalars"))
     strict = 0
     for (i1, s1), (i2, s2) in zip(zip(info[:-1], got[:-1]), zip(info[1:], got[1:])):
         if i1 is None or i2 is None:
@@ -923,7 +941,8 @@ def containers(case, ctx):
             if lawname == "SB" and v != 0:
                 r = ref_stress("SB", abs(v), m, kp, sec)
                 if _known_gate(ctx, f06a_cancellation("SB", v, r, kp, rt, t), "F06_a") or \
-                        _known_gate(ctx, f06b_mirror_root("SB", fname, v, r, kp, rt, t, m, sec), "F06_b"):
+                        _known_gate(ctx, f06b_mirror_root("SB", fname, v, r, kp, rt, t, m, sec) or
+                                        f06b_mirror_root("SB", fname, v, r, kp, rt, t, m, sec, True), "F06_b"):
                     gated = True
                     continue
             try:
